@@ -35,6 +35,21 @@ from ..api.tracepoint.tracepoint_config import LabelExpression, MetricDefinition
 from ..api.tracepoint.trigger import build_trigger, Trigger
 
 
+def safe_text(value):
+    """
+    Make text safe for protobuf.
+
+    Python strings can hold lone surrogates (e.g. from os.fsdecode, or json), these cannot be encoded as utf-8, so
+    we replace them instead of losing the whole message.
+    """
+    if isinstance(value, str):
+        try:
+            value.encode('utf-8')
+        except UnicodeEncodeError:
+            return value.encode('utf-8', 'replace').decode('utf-8')
+    return value
+
+
 def convert_value(value):
     """
     Convert a value from the python type.
@@ -46,8 +61,11 @@ def convert_value(value):
     if isinstance(value, bool):
         return AnyValue(bool_value=value)
     if isinstance(value, str):
-        return AnyValue(string_value=value)
+        return AnyValue(string_value=safe_text(value))
     if isinstance(value, int):
+        if not -2 ** 63 <= value < 2 ** 63:
+            # the wire type is a 64 bit integer: keep the digits rather than lose the message
+            return AnyValue(string_value=str(value))
         return AnyValue(int_value=value)
     if isinstance(value, float):
         return AnyValue(double_value=value)
@@ -67,7 +85,8 @@ def __value_as_dict(value):
 
 
 def __value_as_list(value):
-    return ArrayValue(values=[convert_value(val) for val in value])
+    # a sequence attribute can have holes (None elements are accepted by BoundedAttributes): they stay holes
+    return ArrayValue(values=[convert_value(val) if val is not None else AnyValue() for val in value])
 
 
 def convert_resource(resource):
